@@ -71,7 +71,7 @@ class History:
                     kw["weights"] = np.asarray([rng.randint(0, 16) / 4 for _ in range(n)])
                 elif rng.random() < 0.5:
                     kw["dtype"] = rng.choice(["int64", "int32", "int16", "float64", "float32"])
-                if kind == "1d_gapped":
+                if kind == "1d_gapped" and rng.random() < 0.5:
                     kw.pop("dtype", None)
                     kw["weights"] = np.asarray([rng.randint(0, 16) / 4 for _ in range(n)])
                 if rng.random() < 0.2:
